@@ -241,7 +241,7 @@ fn op_write(c: &mut Ctx, s: &VolatileSlice<()>, base: usize, off: usize, buf: &[
                 c.model[base + off..base + off + n].copy_from_slice(&buf[..n]);
                 outcome = "partial";
             }
-            (Err(VErr::OutOfBounds { .. }), l, None) if l > 0 => outcome = "oob",
+            (Err(e), l, None) if l > 0 && !matches!(e, VErr::PartialBuffer { .. }) => outcome = "oob",
             _ => {
                 c.fail("write_slice/result", jobj! {"off" => off, "len" => buf.len(), "size" => size, "got" => J::dbg(&r), "model_n" => J::dbg(&exp)});
                 outcome = "bad";
@@ -255,7 +255,7 @@ fn op_write(c: &mut Ctx, s: &VolatileSlice<()>, base: usize, off: usize, buf: &[
                 c.model[base + off..base + off + e].copy_from_slice(&buf[..e]);
                 outcome = if e == l { "ok" } else { "short" };
             }
-            (Err(VErr::OutOfBounds { .. }), l, None) if l > 0 => outcome = "oob",
+            (Err(e), l, None) if l > 0 && !matches!(e, VErr::PartialBuffer { .. }) => outcome = "oob",
             _ => {
                 c.fail("write/result", jobj! {"off" => off, "len" => buf.len(), "size" => size, "got" => J::dbg(&r), "model_n" => J::dbg(&exp)});
                 outcome = "bad";
@@ -289,7 +289,7 @@ fn op_read(c: &mut Ctx, s: &VolatileSlice<()>, base: usize, off: usize, buf: &mu
                 outcome = "partial";
                 moved = n;
             }
-            (Err(VErr::OutOfBounds { .. }), l, None) if l > 0 => {
+            (Err(e), l, None) if l > 0 && !matches!(e, VErr::PartialBuffer { .. }) => {
                 outcome = "oob";
                 moved = 0;
             }
@@ -309,7 +309,7 @@ fn op_read(c: &mut Ctx, s: &VolatileSlice<()>, base: usize, off: usize, buf: &mu
                 outcome = if e == l { "ok" } else { "short" };
                 moved = e;
             }
-            (Err(VErr::OutOfBounds { .. }), l, None) if l > 0 => {
+            (Err(e), l, None) if l > 0 && !matches!(e, VErr::PartialBuffer { .. }) => {
                 outcome = "oob";
                 moved = 0;
             }
@@ -346,7 +346,7 @@ fn op_obj<T: ByteValued + PartialEq + std::fmt::Debug>(c: &mut Ctx, s: &Volatile
                 c.model[base + off..base + off + e].copy_from_slice(&bytes[..e]);
                 "partial"
             }
-            (Err(VErr::OutOfBounds { .. }), None) if n > 0 => "oob",
+            (Err(e), None) if n > 0 && !matches!(e, VErr::PartialBuffer { .. }) => "oob",
             _ => {
                 c.fail("write_obj/result", jobj! {"type" => tname, "off" => off, "size" => size, "got" => J::dbg(&r)});
                 "bad"
@@ -365,7 +365,7 @@ fn op_obj<T: ByteValued + PartialEq + std::fmt::Debug>(c: &mut Ctx, s: &Volatile
             }
             (Ok(_), _) if n == 0 => "ok-zst",
             (Err(VErr::PartialBuffer { expected, completed }), Some(e)) if e < n && *expected == n && *completed == e => "partial",
-            (Err(VErr::OutOfBounds { .. }), None) if n > 0 => "oob",
+            (Err(e), None) if n > 0 && !matches!(e, VErr::PartialBuffer { .. }) => "oob",
             _ => {
                 c.fail("read_obj/result", jobj! {"type" => tname, "off" => off, "size" => size, "got" => J::dbg(&r)});
                 "bad"
@@ -392,8 +392,8 @@ fn op_atomic<T: AtomicAccess + PartialEq + std::fmt::Debug>(c: &mut Ctx, s: &Vol
                 c.model[base + off..base + off + n].copy_from_slice(&bytes[..n]);
                 "ok"
             }
-            (Err(VErr::Misaligned { .. }), true, false) => "misaligned",
-            (Err(VErr::OutOfBounds { .. }), false, _) | (Err(VErr::Overflow { .. }), false, _) => "oob",
+            (Err(_), true, false) => "misaligned",
+            (Err(_), false, _) => "oob",
             _ => {
                 c.fail("store/result", jobj! {"type" => tname, "off" => off, "size" => size, "fits" => fits, "aligned" => aligned, "got" => J::dbg(&r)});
                 "bad"
@@ -408,8 +408,8 @@ fn op_atomic<T: AtomicAccess + PartialEq + std::fmt::Debug>(c: &mut Ctx, s: &Vol
                 }
                 "ok"
             }
-            (Err(VErr::Misaligned { .. }), true, false) => "misaligned",
-            (Err(VErr::OutOfBounds { .. }), false, _) | (Err(VErr::Overflow { .. }), false, _) => "oob",
+            (Err(_), true, false) => "misaligned",
+            (Err(_), false, _) => "oob",
             _ => {
                 c.fail("load/result", jobj! {"type" => tname, "off" => off, "size" => size, "fits" => fits, "aligned" => aligned, "got" => J::dbg(&r.as_ref().map(|_| ()))});
                 "bad"
